@@ -254,6 +254,15 @@ func cmdStress(args []string) int {
 					if err := tree.DeleteVersionsTo(p); err == nil {
 						pinViol = fmt.Sprintf("DeleteVersionsTo(%d) succeeded while an export of version %d was open", p, p)
 					}
+					// a second export of the same version, closed twice (allowed), must not release the first pin
+					ex2, err2 := im.Export()
+					if err2 == nil {
+						ex2.Close()
+						ex2.Close()
+						if err := tree.DeleteVersionsTo(p); err == nil && pinViol == "" {
+							pinViol = fmt.Sprintf("DeleteVersionsTo(%d) succeeded while one of two exports of version %d was still open", p, p)
+						}
+					}
 					ex.Close()
 				}
 			}
